@@ -17,8 +17,13 @@
    (initial 0x40); every event type with its byte consumption; pitch wheel arithmetic; controller map; one-byte system
    events (value = channels + 1 for "mono", else 0); multi-byte delay with the 140/frequency scaling applied per digit;
    End event (the loop goes on if bytes follow); track length.
-   Left out: output buffer growth (realloc), mus2mid_writevarlen for values >= 2^28 (int32 overflow in the C code),
-   the double rounding of 140.0/frequency for frequencies that do not divide 140 * 2^k (the library passes 140).       *)
+           [ok |-> FALSE, crash |-> TRUE]                                    a delta time >= 2^28 reaches mus2mid_writevarlen: its
+                                                                             int32 `buffer` turns negative, the output loop never
+                                                                             sees bit 7 clear and writes past temp_buffer[32]
+                                                                             (label mus-delay-overflow-crash of the check)
+           [ok |-> FALSE, unmodelled |-> TRUE]                               delta_time * 128 overflows int32 (undefined in C)
+   Left out: output buffer growth (realloc), the double rounding of 140.0/frequency for frequencies that do not divide
+   140 * 2^k (the library passes 140).                                                                                 *)
 EXTENDS Common
 
 \* ---- constants of the converter (the binding demonstration mutates these) ----
@@ -38,18 +43,19 @@ M2Rejected == [ok |-> FALSE]
 M2At(b, p) == b[p + 1]                                   \* byte at C offset p
 M2Le16(b, p) == M2At(b, p) + 256 * M2At(b, p + 1)          \* MUS_READ_INT16
 
-\* mus2mid_writevarlen: number of bytes written for a value in 0 .. 2^28 - 1
+\* mus2mid_writevarlen: number of bytes written for a value in 0 .. 2^28 - 1; from 2^28 on it does not terminate inside the buffer
+M2VarLenLimit == 268435456
 M2VarLen(v) == IF v < 128 THEN 1 ELSE IF v < 16384 THEN 2 ELSE IF v < 2097152 THEN 3 ELSE 4
 
 \* (int32_t)(x * (140.0 / (double)frequency))
 M2Scale(x, f) == IF f = 140 THEN x ELSE (x * 140) \div f
 
 \* do { if (end - cur < 1) goto _end; delta = scale(delta * 128 + (*cur & 127)); } while (*cur++ & 128);
-\* returns <<delta, cur>>, cur = -1 on goto _end
+\* returns <<delta, cur>>, cur = -1 on goto _end, -2 when the arithmetic leaves int32
 RECURSIVE M2Delay(_, _, _, _, _)
 M2Delay(b, end, f, cur, delta) ==
   IF end - cur < 1 THEN <<0, -1>>
-  ELSE IF delta >= 16777216 THEN <<268435456, cur>>              \* delta * 128 overflows int32 in the C code: outside the model
+  ELSE IF delta >= 16777216 THEN <<0, -2>>                       \* delta * 128 overflows int32 in the C code: outside the model
   ELSE LET x == M2At(b, cur)  d1 == M2Scale(delta * 128 + (x % 128), f) IN
        IF x >= 128 THEN M2Delay(b, end, f, cur + 1, d1) ELSE <<d1, cur + 1>>
 
@@ -99,15 +105,16 @@ M2Step(b, end, chans, f, S) ==
       map1 == IF fresh THEN [S.map EXCEPT ![channel + 1] = S.cc] ELSE S.map
       cc1 == IF ~fresh THEN S.cc ELSE IF S.cc + 1 = M2SkipMidi THEN S.cc + 2 ELSE S.cc + 1
       r == M2Event(b, end, chans, (event \div 16) % 8, mapped, S.cur + 1, S.vol)
-  IN IF ~r.ok THEN [S EXCEPT !.st = "rejected"]
+  IN IF S.delta >= M2VarLenLimit THEN [S EXCEPT !.st = "crash"]       \* out_local += mus2mid_writevarlen(delta_time, out_local)
+     ELSE IF ~r.ok THEN [S EXCEPT !.st = "rejected"]
      ELSE LET main == IF r.status = 255 THEN <<r.bit1>>                                   \* FF 2F + length byte 00
                       ELSE IF r.bitc = 2 THEN <<r.bit1, r.bit2>> ELSE <<r.bit1>>
               evs == IF fresh THEN << <<S.delta, 176 + S.cc, 7, M2Cc7Value>>, <<0, r.status>> \o main >>
                      ELSE << <<S.delta, r.status>> \o main >>
               nb == M2VarLen(S.delta) + (IF fresh THEN 4 ELSE 0) + 2 + (IF r.bitc = 2 THEN 1 ELSE 0)
               d == IF event >= 128 THEN M2Delay(b, end, f, r.cur, 0) ELSE <<0, r.cur>>
-          IN IF d[2] < 0 THEN [S EXCEPT !.st = "rejected"]
-             ELSE IF d[1] >= 268435456 THEN [S EXCEPT !.st = "unmodelled"]
+          IN IF d[2] = -1 THEN [S EXCEPT !.st = "rejected"]
+             ELSE IF d[2] = -2 THEN [S EXCEPT !.st = "unmodelled"]
              ELSE [S EXCEPT !.cur = d[2], !.delta = d[1], !.map = map1, !.cc = cc1, !.vol = r.vol, !.ev = @ \o evs, !.n = @ + nb]
 RECURSIVE M2Loop(_, _, _, _, _)
 M2Loop(b, end, chans, f, S) == IF S.st # "run" \/ S.cur >= end THEN S ELSE M2Loop(b, end, chans, f, M2Step(b, end, chans, f, S))
@@ -124,6 +131,7 @@ Mus2Mid(b, frequency) ==
                           ev |-> << <<0, 255, 81>> \o M2TempoBytes, <<0, 176 + M2PercMidi, 7, M2Cc7Value>> >>]
                    S == M2Loop(b, scoreStart + scoreLen, chans, f, S0)
                IN IF S.st = "rejected" THEN M2Rejected
+                  ELSE IF S.st = "crash" THEN [ok |-> FALSE, crash |-> TRUE]
                   ELSE IF S.st # "run" THEN [ok |-> FALSE, unmodelled |-> TRUE]
                   ELSE [ok |-> TRUE, fmt |-> 0, ntr |-> 1, div |-> M2Division, tempo |-> M2TempoBytes,
                         tracks |-> << [len |-> S.n, ev |-> S.ev, rs |-> [i \in DOMAIN S.ev |-> 0]] >>]
